@@ -186,7 +186,7 @@ Section ArenaSetProofs.
 
   Lemma sstep_inv s o : SInv s -> SInv (fst (sstep s o)).
   Proof.
-    intros HS. destruct o as [v|id|id|id| | |w]; cbn; try exact HS.
+    intros HS. destruct o as [v|id|id|id| | |w| ]; cbn; try exact HS.
     - destruct (insert_cases s v HS) as [[id [v0 [Hi He]]]|Hn].
       + rewrite (insert_existing s id v0 v HS Hi He). exact HS.
       + destruct (insert_fresh s v HS Hn) as [s' [E [_ [HS' _]]]]. rewrite E. exact HS'.
